@@ -4,6 +4,9 @@ import (
 	"bytes"
 	"context"
 	"fmt"
+	"github.com/gogo/protobuf/proto"
+	format "github.com/ipfs/go-ipld-format"
+	"github.com/multiformats/go-multihash"
 	"io"
 	"math/rand"
 	"strings"
@@ -131,9 +134,51 @@ func parseWriter(wr string) (layout string, raw bool, cidv int) {
 	return
 }
 
+// stripBlockSizes rewrites a file DAG bottom-up without the BlockSizes of its interior nodes (a legal but
+// non-standard writer): the reader then has to learn child sizes from Tsize (raw leaves) or by opening children.
+func stripBlockSizes(st *Store, c cid.Cid) (cid.Cid, error) {
+	if c.Prefix().Codec != cid.DagProtobuf {
+		return c, nil
+	}
+	b, _ := st.Get(c)
+	pn, d, err := decodePB(c, b)
+	if err != nil || d == nil {
+		return c, err
+	}
+	if len(pn.Links()) == 0 {
+		return c, nil
+	}
+	d.Blocksizes = nil
+	db, err := proto.Marshal(d)
+	if err != nil {
+		return c, err
+	}
+	nd := merkledag.NodeWithData(db)
+	nd.SetCidBuilder(cid.V1Builder{Codec: cid.DagProtobuf, MhType: multihash.SHA2_256})
+	for _, l := range pn.Links() {
+		nc, err := stripBlockSizes(st, l.Cid)
+		if err != nil {
+			return c, err
+		}
+		if err := nd.AddRawLink(l.Name, &format.Link{Name: l.Name, Size: l.Size, Cid: nc}); err != nil {
+			return c, err
+		}
+	}
+	st.Put(nd.Cid(), nd.RawData())
+	return nd.Cid(), nil
+}
+
 func buildFileCase(st *Store, fc *FileCase, content []byte) (cid.Cid, uint64, error) {
 	if fc.Writer == "" || fc.Writer == "own" {
 		return buildOwnFile(st, bytes.NewReader(content), fc.Chunker, fc.W)
+	}
+	if fc.Writer == "own-nobs" {
+		c, sz, err := buildOwnFile(st, bytes.NewReader(content), fc.Chunker, fc.W)
+		if err != nil {
+			return c, sz, err
+		}
+		nc, err := stripBlockSizes(st, c)
+		return nc, sz, err
 	}
 	layout, raw, cidv := parseWriter(fc.Writer)
 	return buildBoxoFile(st, content, fc.Chunker, fc.W, layout, raw, cidv)
